@@ -36,7 +36,62 @@ type Signer struct {
 	Sites     []*SignSite
 	RunRules  map[*ssa.Function]ssa.CallInstruction // endpoint -> its RunRules invoke
 	PreCheck  *ssa.Function
+	Phase     map[*ssa.Function]*ssa.Call // endpoint -> its call of a package helper that runs the pre-checks (nil: the endpoint runs them itself)
 	ok        bool
+}
+
+// Unit returns the endpoint, its closures and, when the pre-checks are run by a package helper, that helper and its closures.
+func (s *Signer) Unit(E *ssa.Function) []*ssa.Function {
+	out := WithClosures(E)
+	if hc := s.Phase[E]; hc != nil {
+		out = append(out, WithClosures(hc.Call.StaticCallee())...)
+	}
+	return out
+}
+
+// InEndpoint maps a value of the unit to the endpoint's frame: values of the pre-check helper that are (captured)
+// parameters become the arguments the endpoint passes; values of the endpoint and its closures stay.
+func (s *Signer) InEndpoint(E *ssa.Function, v ssa.Value) ssa.Value {
+	hc := s.Phase[E]
+	if hc == nil {
+		return v
+	}
+	H := hc.Call.StaticCallee()
+	r := v
+	if u, ok := r.(*ssa.UnOp); ok && u.Op == token.MUL {
+		if inner, ok := an.ResolveCell(u.X); ok {
+			r = inner
+		}
+	}
+	if p, ok := r.(*ssa.Parameter); ok && p.Parent() == H {
+		for k, q := range H.Params {
+			if q == p && k < len(hc.Call.Args) {
+				return hc.Call.Args[k]
+			}
+		}
+	}
+	return v
+}
+
+// ListOrigin follows a list of the endpoint that is a result of the pre-check helper to the freshly made list the helper returns.
+func (s *Signer) ListOrigin(E *ssa.Function, root ssa.Value) ssa.Value {
+	hc := s.Phase[E]
+	ex, ok := root.(*ssa.Extract)
+	if hc == nil || !ok || ex.Tuple != ssa.Value(hc) {
+		return root
+	}
+	var mk ssa.Value
+	for _, ret := range an.Returns(hc.Call.StaticCallee()) {
+		r, ok := sliceRootExact(an.Result(ret, ex.Index)).(*ssa.MakeSlice)
+		if !ok || (mk != nil && mk != ssa.Value(r)) {
+			return root
+		}
+		mk = r
+	}
+	if mk == nil {
+		return root
+	}
+	return mk
 }
 
 var signerEndpoints = []string{"SignGeneric", "SignBeaconProposal", "SignBeaconAttestation", "SignBeaconAttestations", "Multisign"}
@@ -45,7 +100,7 @@ func (c *Ctx) Signer(rule string) *Signer {
 	if s, ok := c.memo["signer"].(*Signer); ok {
 		return s
 	}
-	s := &Signer{Endpoints: map[string]*ssa.Function{}, SignFns: map[*ssa.Function]bool{}, RunRules: map[*ssa.Function]ssa.CallInstruction{}}
+	s := &Signer{Endpoints: map[string]*ssa.Function{}, SignFns: map[*ssa.Function]bool{}, RunRules: map[*ssa.Function]ssa.CallInstruction{}, Phase: map[*ssa.Function]*ssa.Call{}}
 	c.memo["signer"] = s
 	s.Impl = c.Role(rule, pkgSigner, "Service")
 	if s.Impl == nil {
@@ -95,18 +150,40 @@ func (c *Ctx) Signer(rule string) *Signer {
 	}
 	// preCheck: the module function returning (Wallet, Account, core.Result) called by every endpoint
 	cnt := map[*ssa.Function]int{}
+	isPC := func(ci ssa.CallInstruction) bool {
+		cal := ci.Common().StaticCallee()
+		if cal == nil || !prog.InModule(cal) {
+			return false
+		}
+		res := cal.Signature.Results()
+		return res.Len() == 3 && namedIs(res.At(2).Type(), pkgCore, "Result")
+	}
 	for _, n := range signerEndpoints {
-		for _, f := range WithClosures(s.Endpoints[n]) {
-			for _, ci := range Calls(f, func(ci ssa.CallInstruction) bool {
-				cal := ci.Common().StaticCallee()
-				if cal == nil || !prog.InModule(cal) {
-					return false
-				}
-				res := cal.Signature.Results()
-				return res.Len() == 3 && namedIs(res.At(2).Type(), pkgCore, "Result")
-			}) {
-				cnt[ci.Common().StaticCallee()]++
+		E := s.Endpoints[n]
+		seen := map[*ssa.Function]bool{}
+		for _, f := range WithClosures(E) {
+			for _, ci := range Calls(f, isPC) {
+				seen[ci.Common().StaticCallee()] = true
 			}
+		}
+		if len(seen) == 0 {
+			// the pre-check may be run by a package helper of the endpoint (one level)
+			for _, ci := range Calls(E, func(ci ssa.CallInstruction) bool {
+				h := ci.Common().StaticCallee()
+				return h != nil && h.Blocks != nil && prog.PkgPathOf(h) == pkgPath && !ci.Common().IsInvoke()
+			}) {
+				for _, f := range WithClosures(ci.Common().StaticCallee()) {
+					for _, c2 := range Calls(f, isPC) {
+						seen[c2.Common().StaticCallee()] = true
+						if call, ok := ci.(*ssa.Call); ok {
+							s.Phase[E] = call
+						}
+					}
+				}
+			}
+		}
+		for f := range seen {
+			cnt[f]++
 		}
 	}
 	for f, n := range cnt {
